@@ -54,6 +54,28 @@ func rsaKey(i int) *rsa.PrivateKey {
 	return rsaPool[i%len(rsaPool)]
 }
 
+var (
+	rsaBigOnce sync.Once
+	rsaBigKey  *rsa.PrivateKey
+)
+
+// rsaBig is a 3072-bit key (outside what token type 2 supports).
+func rsaBig() *rsa.PrivateKey {
+	rsaBigOnce.Do(func() {
+		data, err := testdata.ReadFile("testdata/rsa3072.pem")
+		if err != nil {
+			panic(err)
+		}
+		block, _ := pem.Decode(data)
+		key, err := x509.ParsePKCS1PrivateKey(block.Bytes)
+		if err != nil {
+			panic(err)
+		}
+		rsaBigKey = key
+	})
+	return rsaBigKey
+}
+
 func voprfKey(suite oprf.Suite, seed int64, name string) *oprf.PrivateKey {
 	s := sha256.Sum256([]byte(fmt.Sprintf("verif-voprf-%d-%s", seed, name)))
 	k, err := oprf.DeriveKey(suite, oprf.VerifiableMode, s[:], []byte("verif"))
@@ -333,4 +355,9 @@ func authInput(tok tokens.Token) []byte {
 	in = append(in, tok.Nonce...)
 	in = append(in, tok.Context...)
 	return append(in, tok.KeyID...)
+}
+
+func sha256Sum(b []byte) []byte {
+	h := sha256.Sum256(b)
+	return h[:]
 }
